@@ -26,16 +26,24 @@ static void op_EcdsaSign(const jv *in, jout *out) {
     if (nf == 2) { vh_load_nonce_seq(in, &seq); fn = vh_nonce_fn_seq; data = &seq; }
     else if (nf == 3) { skp.skip = jv_int(in, "skip", 1); skp.data = has_extra ? extra : NULL; fn = vh_nonce_fn_skip; data = &skp; }
     else if (has_extra) data = extra;
+    /* "alias": m = one input is stored INSIDE the object that receives the signature (m = 1 message at offset 0, 2 secret key at
+     * offset 32, 3 extra nonce data at offset 0; see spec/api/Aliasing.tla) */
     if (rec) {
-        secp256k1_ecdsa_recoverable_signature rs;
+        secp256k1_ecdsa_recoverable_signature rs; long al = jv_int(in, "alias", 0); const unsigned char *pm = msg, *pk = key;
         memset(&rs, 0xAA, sizeof(rs));
-        ret = secp256k1_ecdsa_sign_recoverable(CTX, &rs, msg, key, fn, data);
+        if (al == 1) { memcpy(rs.data, msg, 32); pm = rs.data; }
+        else if (al == 2) { memcpy(rs.data + 32, key, 32); pk = rs.data + 32; }
+        else if (al == 3 && data == extra) { memcpy(rs.data, extra, 32); data = rs.data; }
+        ret = secp256k1_ecdsa_sign_recoverable(CTX, &rs, pm, pk, fn, data);
         secp256k1_ecdsa_recoverable_signature_serialize_compact(CTX, sig64, &recid, &rs);
         jo_int(out, "recid", recid);
     } else {
-        secp256k1_ecdsa_signature s;
+        secp256k1_ecdsa_signature s; long al = jv_int(in, "alias", 0); const unsigned char *pm = msg, *pk = key;
         memset(&s, 0xAA, sizeof(s));
-        ret = secp256k1_ecdsa_sign(CTX, &s, msg, key, fn, data);
+        if (al == 1) { memcpy(s.data, msg, 32); pm = s.data; }
+        else if (al == 2) { memcpy(s.data + 32, key, 32); pk = s.data + 32; }
+        else if (al == 3 && data == extra) { memcpy(s.data, extra, 32); data = s.data; }
+        ret = secp256k1_ecdsa_sign(CTX, &s, pm, pk, fn, data);
         secp256k1_ecdsa_signature_serialize_compact(CTX, sig64, &s);
     }
     jo_int(out, "ret", ret); jo_bytes(out, "sig", sig64, 64);
